@@ -499,6 +499,15 @@ func c19Special(c *Ctx, shard, nshards int) {
 			cases = append(cases, sp{fmt.Sprintf("rod 0.5x0.5x100 along axis %d", axis), rod, box, n, "v2", 25})
 		}
 	}
+	// parts drawn in world coordinates (a site plan in UTM metres, a part at 4.2e6 on one axis): the lattice spacing is below
+	// the float32 spacing of the coordinates, so anything that keys, hashes or stores sample points in single precision shows
+	for _, t := range []v3.Vec{{X: 4.2e6}, {X: 300000, Y: 5100000, Z: 250}, {X: -1.7e7, Y: 1.7e7, Z: -1.7e7}} {
+		sph, _ := sdf.Sphere3D(5)
+		far := sdf.Transform3D(sph, sdf.Translate3d(t))
+		for _, rd := range []string{"v1", "v2"} {
+			cases = append(cases, sp{fmt.Sprintf("sphere 5 at %v", t), far, far.BoundingBox().ScaleAboutCenter(1.3), 40, rd, 4.0 / 3 * math.Pi * 125})
+		}
+	}
 	for i, k := range cases {
 		if i%nshards != shard {
 			continue
